@@ -509,8 +509,11 @@ class C12(Prop):
             # (thorough: 7 points only now and then -- the full simplex on 7 points has 127 simplices
             # and each of the up to 20 radii of a script builds its flag complex from scratch)
             dim = rnd.randint(1, 3); npts = rnd.randint(2, 6 if (tier == 'quick' or i % 10) else 7)
-            kind = i % 4
-            if kind == 0:      # integer grid: exact distances, ties
+            kind = i % 5
+            if kind == 4:      # tenths on a line: every eps a tie, sums and differences round
+                dim = 1
+                pts = [[x / 10.0] for x in rnd.sample(range(0, 30), npts)]
+            elif kind == 0:      # integer grid: exact distances, ties
                 pts = [[float(rnd.randint(0, 4)) for _ in range(dim)] for _ in range(npts)]
             elif kind == 1:    # collinear / coincident
                 base = [float(rnd.randint(0, 3)) for _ in range(dim)]
@@ -528,7 +531,7 @@ class C12(Prop):
             from harness.oracles3 import own_distance
             ds = sorted({own_distance(metric, p, q) for p, q in itertools.combinations(pts, 2)})
             eps_list = [-1.0, 0.0]
-            for d in ds[:4] + ds[-1:]:
+            for d in ds[:3] + rnd.sample(ds, min(3, len(ds))) + ds[-1:]:
                 eps_list += [d, math.nextafter(d, -math.inf), math.nextafter(d, math.inf)]
             eps_list.append((ds[-1] if ds else 0.0) + 1.0)
             eps_list = sorted(set(eps_list))
